@@ -261,11 +261,13 @@ func inlineFunc(fn *ssa.Function, parent *ssa.Function, policy InlinePolicy) *In
 	}
 	nf.Blocks = b.blocks
 	prune(nf)
-	for i := 0; i < 6; i++ {
+	for i := 0; i < 8; i++ {
 		t := thread(nf)
 		prune(nf)
 		simplifyPhis(nf, nil)
-		if !mergeConts(nf) && !t {
+		m := mergeConts(nf)
+		f := flattenForwarders(nf)
+		if !m && !t && !f {
 			break
 		}
 	}
@@ -865,6 +867,153 @@ func madeHere(ph *ssa.Phi) bool {
 	return false
 }
 
+// flattenForwarders removes a continuation block that only merges results and jumps on (phis and a jump; its phis
+// used only by the phis of its successor): its predecessors branch to the successor directly, whose phis take the
+// forwarded values. `for x, ok := next(); ok; x, ok = next()` then has the returns of next() as direct predecessors of
+// the loop test, where the constant `ok` of each can be threaded.
+func flattenForwarders(fn *ssa.Function) bool {
+	any := false
+	for again := true; again; {
+		again = false
+		for _, p := range fn.Blocks {
+			if !strings_hasPrefix(p.Comment, "inline.cont:") || len(p.Succs) != 1 || len(p.Preds) < 2 || len(p.Instrs) == 0 {
+				continue
+			}
+			k := p.Succs[0]
+			if k == p || k == fn.Blocks[0] {
+				continue
+			}
+			if _, isJ := p.Instrs[len(p.Instrs)-1].(*ssa.Jump); !isJ {
+				continue
+			}
+			pi := -1
+			for i, q := range k.Preds {
+				if q == p {
+					if pi >= 0 {
+						pi = -2
+					}
+					if pi == -1 {
+						pi = i
+					}
+				}
+			}
+			if pi < 0 {
+				continue
+			}
+			// p: madeHere phis, dead pure instructions, jump
+			var phis []*ssa.Phi
+			okShape := true
+			defs := map[ssa.Value]bool{}
+			for _, in := range p.Instrs[:len(p.Instrs)-1] {
+				switch x := in.(type) {
+				case *ssa.Phi:
+					if !madeHere(x) {
+						okShape = false
+					}
+					phis = append(phis, x)
+					defs[x] = true
+				case *ssa.BinOp, *ssa.UnOp:
+					defs[in.(ssa.Value)] = true
+				default:
+					okShape = false
+				}
+			}
+			if !okShape || len(phis) == 0 {
+				continue
+			}
+			// uses of p's values: only k's phis on the edge from p (pure instructions of p itself may use its phis but must be dead)
+			usedElsewhere := false
+			for _, b := range fn.Blocks {
+				for _, in := range b.Instrs {
+					if b == p {
+						continue
+					}
+					_, isPhi := in.(*ssa.Phi)
+					var buf [8]*ssa.Value
+					for oi, op := range in.Operands(buf[:0]) {
+						if *op == nil || !defs[*op] {
+							continue
+						}
+						if _, isP := (*op).(*ssa.Phi); !isP {
+							usedElsewhere = true // a computed value of p is live
+							continue
+						}
+						if !(isPhi && b == k && oi == pi) {
+							usedElsewhere = true
+						}
+					}
+				}
+			}
+			for _, in := range p.Instrs[:len(p.Instrs)-1] {
+				if _, isPhi := in.(*ssa.Phi); isPhi {
+					continue
+				}
+				var buf [4]*ssa.Value
+				_ = buf
+			}
+			if usedElsewhere {
+				continue
+			}
+			// rewire
+			newPreds := append([]*ssa.BasicBlock{}, k.Preds[:pi]...)
+			newPreds = append(newPreds, p.Preds...)
+			newPreds = append(newPreds, k.Preds[pi+1:]...)
+			for _, in := range k.Instrs {
+				ph, ok := in.(*ssa.Phi)
+				if !ok {
+					break
+				}
+				old := ph.Edges[pi]
+				var mid []ssa.Value
+				for j := range p.Preds {
+					v := old
+					if op, isP := old.(*ssa.Phi); isP && op.Block() == p {
+						v = op.Edges[j]
+					}
+					mid = append(mid, v)
+				}
+				ne := append([]ssa.Value{}, ph.Edges[:pi]...)
+				ne = append(ne, mid...)
+				ne = append(ne, ph.Edges[pi+1:]...)
+				ph.Edges = ne
+			}
+			for _, q := range p.Preds {
+				replaceSucc(q, p, k)
+			}
+			k.Preds = newPreds
+			p.Preds, p.Succs, p.Instrs = nil, nil, nil
+			for i, b := range fn.Blocks {
+				if b == p {
+					fn.Blocks = append(fn.Blocks[:i:i], fn.Blocks[i+1:]...)
+					break
+				}
+			}
+			again, any = true, true
+			break
+		}
+	}
+	return any
+}
+
+// flagPhi: every incoming value is a boolean constant or a phi made by this file: a returned flag, not a loop counter.
+func flagPhi(ph *ssa.Phi) bool {
+	for _, e := range ph.Edges {
+		switch x := e.(type) {
+		case *ssa.Const:
+			if x.Value == nil || x.Value.Kind() != constant.Bool {
+				return false
+			}
+		case *ssa.Phi:
+			if !madeHere(x) {
+				return false
+			}
+		default:
+			return false
+		}
+	}
+	return true
+}
+
 func thread(fn *ssa.Function) bool {
 	any := false
 	for changed, rounds := true, 0; changed && rounds < 8; rounds++ {
@@ -881,6 +1030,32 @@ func thread(fn *ssa.Function) bool {
 			// the block holds phis, pure operations on them, and the If; nothing defined here is used elsewhere
 			simple := true
 			nphi := 0
+			// the phis the condition depends on
+			condPhis := map[*ssa.Phi]bool{}
+			{
+				var walk func(v ssa.Value, d int)
+				walk = func(v ssa.Value, d int) {
+					if d > 6 {
+						return
+					}
+					switch x := v.(type) {
+					case *ssa.Phi:
+						if x.Block() == k {
+							condPhis[x] = true
+						}
+					case *ssa.UnOp:
+						if x.Block() == k {
+							walk(x.X, d+1)
+						}
+					case *ssa.BinOp:
+						if x.Block() == k {
+							walk(x.X, d+1)
+							walk(x.Y, d+1)
+						}
+					}
+				}
+				walk(iff.Cond, 0)
+			}
 			for _, in := range k.Instrs[:len(k.Instrs)-1] {
 				switch x := in.(type) {
 				case *ssa.Phi:
@@ -889,7 +1064,7 @@ func thread(fn *ssa.Function) bool {
 					// is a loop or branch of the program itself, and peeling it would change the shapes rules match
 					// a phi at a loop header is the loop itself: threading its entry edge would peel the loop and
 					// change the shapes the rules match; any other phi (a flag set on some branches) is fair game
-					if !madeHere(x) && headers[k] {
+					if condPhis[x] && !madeHere(x) && headers[k] && !flagPhi(x) {
 						simple = false
 					}
 				case *ssa.UnOp:
